@@ -5,7 +5,8 @@ import json, shutil, sys
 from pathlib import Path
 
 pid, n, sid, needs, detected, result = sys.argv[1:7]
-src = Path(f"/tmp/seed_{pid}/deliverable")
+import os
+src = Path(f"/tmp/{os.environ.get('SEEDPREFIX', 'seed')}_{pid}/deliverable")
 dst = Path(f"/verif/seeded/{sid}")
 dst.mkdir(parents=True, exist_ok=True)
 shutil.copy(src / f"patch{n}.diff", dst / "patch.diff")
